@@ -50,17 +50,40 @@ Proof.
     congruence.
 Qed.
 
-(* DW_CFA_* as callframe.py sees them = Table 7.29 + the GNU extensions, name by name *)
-Theorem gen_DW_CFA_is_spec : forall n, assoc_s n gen_DW_CFA = assoc_s n spec_DW_CFA.
-Proof. apply same_bindings_sound. vm_compute. reflexivity. Qed.
+(* every binding of the first list is a binding of the second *)
+Definition sub_bindings (a b : list (string * Z)) : bool :=
+  forallb (fun kv => oz_eqb (assoc_s (fst kv) a) (assoc_s (fst kv) b)) a.
+Lemma assoc_s_in n l v : assoc_s n l = Some v -> In n (map fst l).
+Proof.
+  induction l as [|[k w] r IH]; cbn [assoc_s map fst In]; [discriminate|].
+  destruct (String.eqb_spec n k) as [->|Hne]; [auto|]. intros H. right. auto.
+Qed.
+Lemma sub_bindings_sound a b : sub_bindings a b = true ->
+  forall n v, assoc_s n a = Some v -> assoc_s n b = Some v.
+Proof.
+  unfold sub_bindings. intros H n v Hn. rewrite forallb_forall in H.
+  pose proof (assoc_s_in _ _ _ Hn) as Hin. apply in_map_iff in Hin.
+  destruct Hin as (kv & <- & Hkv). specialize (H _ Hkv). apply oz_eqb_eq in H. congruence.
+Qed.
 
-(* _OPCODE_NAME_MAP: every opcode it knows is named by a name the standard gives that opcode,
-   and it knows every opcode of the table *)
+(* DW_CFA_* as callframe.py sees them: every name it has carries the value the standard
+   (Table 7.29) or the binutils/LLVM registry gives that name ... *)
+Theorem gen_DW_CFA_sound : forall n v,
+  assoc_s n gen_DW_CFA = Some v -> assoc_s n spec_DW_CFA = Some v.
+Proof. apply sub_bindings_sound. vm_compute. reflexivity. Qed.
+
+(* ... and it has every name of Table 7.29 and the GNU extensions ELF producers emit *)
+Theorem gen_DW_CFA_core : forall n v,
+  assoc_s n spec_DW_CFA_core = Some v -> assoc_s n gen_DW_CFA = Some v.
+Proof. apply sub_bindings_sound. vm_compute. reflexivity. Qed.
+
+(* _OPCODE_NAME_MAP: every opcode it knows is named by a name the standard/registry gives that
+   opcode, and it knows every opcode of the core table *)
 Definition name_map_sound : bool :=
   forallb (fun kv => oz_eqb (assoc_s (snd kv) spec_DW_CFA) (Some (fst kv))) gen_OPCODE_NAME_MAP.
 Definition name_map_complete : bool :=
   forallb (fun kv => match assocZ (snd kv) gen_OPCODE_NAME_MAP with Some _ => true | None => false end)
-          spec_DW_CFA.
+          spec_DW_CFA_core.
 
 Lemma assocZ_in {A} k (l : list (Z * A)) v : assocZ k l = Some v -> In (k, v) l.
 Proof.
@@ -80,7 +103,7 @@ Proof.
 Qed.
 
 Theorem gen_OPCODE_NAME_MAP_complete : forall name op,
-  In (name, op) spec_DW_CFA -> exists name', assocZ op gen_OPCODE_NAME_MAP = Some name'.
+  In (name, op) spec_DW_CFA_core -> exists name', assocZ op gen_OPCODE_NAME_MAP = Some name'.
 Proof.
   intros name op H.
   assert (Hc : name_map_complete = true) by (vm_compute; reflexivity).
